@@ -167,11 +167,13 @@ Lemma trapz_sum {A} xx (l : list A) (V : A -> list R) m : (forall a, In a l -> l
   rsum (map (fun a => @trapz R _ xx (V a)) l) = trapz xx (map (fun j => rsum (map (fun a => nth j (V a) 0) l)) (seq 0 m)).
 Proof. intros HV. induction l as [|a l IH].
   - cbn [map]. rewrite (map_ext _ (fun _ : nat => 0)) by reflexivity. rewrite trapz_zero. reflexivity.
-  - cbn [map]. rewrite rsum_cons, IH by (intros; apply HV; right; assumption).
-    rewrite <- trapz_add by (rewrite map_length, seq_length; apply HV; left; reflexivity).
+  - assert (La : length (V a) = m) by (apply HV; left; reflexivity).
+    assert (Lm : forall (g : nat -> R), length (V a) = length (map g (seq 0 m))) by (intros; rewrite map_length, seq_length; exact La).
+    cbn [map]. rewrite rsum_cons, IH by (intros; apply HV; right; assumption).
+    rewrite <- trapz_add by apply Lm.
     f_equal. apply nth_ext with (d := 0) (d' := 0).
-    + rewrite vadd_length; rewrite ?map_length, ?seq_length; apply HV; left; reflexivity.
-    + intros j Hj. rewrite map_length, seq_length in Hj. rewrite vadd_nth by (rewrite map_length, seq_length; apply HV; left; reflexivity).
+    + rewrite vadd_length by apply Lm. rewrite map_length, seq_length. exact La.
+    + intros j Hj. rewrite vadd_length, La in Hj by apply Lm. rewrite vadd_nth by apply Lm.
       rewrite !nth_map_seq by assumption. rewrite rsum_cons. reflexivity. Qed.
 
 Lemma map2_nth_seq {A B} (f : A -> B -> R) (a : list A) (b : list B) da db :
@@ -204,15 +206,16 @@ Proof. induction xxs as [|xx xxs IH]; intros shape coords phi HL.
     intros j Hj. rewrite map_length, seq_length in Hj. rewrite nth_map_seq by assumption. rewrite IH by assumption.
     rewrite (nth_indep _ 0 (trapz_nd xxs rest [])) by (rewrite map_length; lia). rewrite map_nth. reflexivity. Qed.
 
+Lemma wint_ext (g1 g2 : list R -> R) xxs : (forall c, g1 c = g2 c) -> forall shape coords phi,
+  @wint R _ g1 xxs shape coords phi = wint g2 xxs shape coords phi.
+Proof. intros E. induction xxs as [|xx xxs IH]; intros shape coords phi.
+  - cbn [wint]. rewrite E. reflexivity.
+  - destruct shape as [|L rest]; [cbn [wint]; rewrite E; reflexivity|]. cbn [wint]. f_equal.
+    unfold map2. apply map_ext. intros p. apply IH. Qed.
+
 (** the admix_props spectrum sums to the trapezoid mass of phi *)
 Theorem admix_total (A : list (list R)) ns xxs shape phi :
   length A = length ns -> Forall2 (fun xx L => length xx = L) xxs shape ->
   rsum (admix_nd A ns xxs shape phi) = trapz_nd xxs shape phi.
 Proof. intros HA HL. unfold admix_nd. rewrite (wint_sum (fun idx => admix_g A ns idx) (idxs ns)) by assumption.
-  rewrite <- (wint_one xxs shape [] phi HL).
-  clear HA0. revert HA. generalize (@nil R) as coords. revert shape phi HL.
-  induction xxs as [|xx xxs IH]; intros shape phi HL coords HA.
-  - cbn [wint]. rewrite admix_probs_sum1 by assumption. reflexivity.
-  - inversion HL as [|? L ? rest HxL HL']; subst. cbn [wint]. f_equal.
-    pose proof (chunk_length (prodl rest) (length xx) phi) as Lc. revert Lc. generalize (chunk (prodl rest) (length xx) phi) as blocks. intros blocks Lc.
-    rewrite !(map2_nth_seq _ xx blocks 0 []) by lia. apply map_ext. intros j. apply IH; assumption. Qed.
+  rewrite <- (wint_one xxs shape [] phi HL). apply wint_ext. intros c. apply admix_probs_sum1. assumption. Qed.
